@@ -12,8 +12,13 @@ Inductive gev :=
 | GHook (sid k : N)                (* every other hook of a seed *)
 | GFetch (sid url : N)             (* arch.fetch of a node of seed sid *)
 | GDel (sid : N)                   (* lq.deleted *)
-| GCapt (sid missing total : N).   (* at fin.finished (sync WARC mode): of the [total] responses the WARC writer acknowledged
+| GCapt (sid missing total : N)    (* at fin.finished (sync WARC mode): of the [total] responses the WARC writer acknowledged
                                       for this seed, [missing] are not readable from the WARC files on disk *)
+| GOffer (sid : N)                 (* lq.insert: the queue's consumer is about to hand this row to ReceiveInsert *)
+| GRep (sid url hops : N).         (* lq.delete, the first time a batch is seen there: the QUEUE holds a finish report for this row
+                                      (one event per id of the batch; url/hops are the row's, for the replay).  This is the
+                                      queue's side of "reported back": it sees the reports of the finisher AND those of the
+                                      queue's own consumer, which finishes a row at once when its text is not a URL *)
 
 Record ecase := EC {
   e_w : N;                  (* WorkersCount *)
@@ -24,11 +29,14 @@ Record ecase := EC {
   e_table_end : N;          (* size of the reactor state table at quiescence *)
   e_maxretry : N;           (* --max-retry *)
   e_wedged : bool;          (* the watchdog fired with seeds still tracked and no event at all for 35 s *)
-  e_hopviol : N             (* seeds fetched although more than --max-hops links away from the queue's rows (via chain) *)
+  e_hopviol : N;            (* seeds fetched although more than --max-hops links away from the queue's rows (via chain) *)
+  e_qwait : bool            (* the crawl was kept running until the queue had received a report for every row (or nothing at
+                               all had moved for 20 s): at completion every row's report has been observed *)
 }.
 
 (* ---- replay through PipeLts.step ---- *)
-Record acc := ACC { a_st : pst; a_cur : list (N * prec) }.
+Record acc := ACC { a_st : pst; a_cur : list (N * prec);
+                    a_off : list N   (* rows offered to the reactor, inserted, or finished at once so far *) }.
 
 Definition steps (s : pst) (ls : list label) : option pst := run s ls.
 
@@ -44,7 +52,7 @@ Definition check_tree (k : nat) (sid : N) (want : item) (s : pst) : option pst :
 Definition bind {A B} (o : option A) (f : A -> option B) : option B :=
   match o with Some a => f a | None => None end.
 
-Definition set_st_acc (a : acc) (s : pst) : acc := ACC s (a_cur a).
+Definition set_st_acc (a : acc) (s : pst) : acc := ACC s (a_cur a) (a_off a).
 
 Definition astep (a : acc) (e : gev) : option acc :=
   let s := a_st a in
@@ -53,7 +61,17 @@ Definition astep (a : acc) (e : gev) : option acc :=
     (* the harness presents the rows in the order in which they were inserted *)
     match p_src s with
     | (id, u', h') :: _ =>
-      if (id =? sid) && (u' =? u) && (h' =? h) then bind (step s LInsert) (fun s' => Some (set_st_acc a s')) else None
+      if (id =? sid) && (u' =? u) && (h' =? h) then bind (step s LInsert) (fun s' => Some (ACC s' (a_cur a) (sid :: a_off a))) else None
+    | [] => None
+    end
+  | GOffer sid => Some (ACC s (a_cur a) (sid :: a_off a))
+  | GRep sid u h =>
+    (* a report for a row that was never offered to the reactor: the consumer's discard arm; any other report is
+       the finisher's (carried by hook 9) or a repetition (the monitors' business) *)
+    if existsb (N.eqb sid) (a_off a) then Some a else
+    match p_src s with
+    | (id, u', h') :: _ =>
+      if (id =? sid) && (u' =? u) && (h' =? h) then bind (step s LDiscard) (fun s' => Some (ACC s' (a_cur a) (sid :: a_off a))) else None
     | [] => None
     end
   | GHook sid 1 =>
@@ -62,7 +80,7 @@ Definition astep (a : acc) (e : gev) : option acc :=
   | GPre sid p =>
     bind (step s (LMove 3 sid (oracle_of p)))
          (fun s' => bind (check_tree 4 sid (p_t_pre p) s')
-         (fun s'' => Some (ACC s'' ((sid, p) :: a_cur a))))
+         (fun s'' => Some (ACC s'' ((sid, p) :: a_cur a) (a_off a))))
   | GHook sid 3 => bind (step s (LMove 4 sid null_oracle)) (fun s' => Some (set_st_acc a s'))
   | GHook sid 4 =>
     match assoc sid (a_cur a) with
@@ -105,9 +123,16 @@ Fixpoint arun (a : acc) (es : list gev) : option acc :=
   | e :: r => match astep a e with Some a' => arun a' r | None => None end
   end.
 
-(* rows in insertion order *)
-Definition ins_rows (es : list gev) : list (N * N * N) :=
-  flat_map (fun e => match e with GIns sid u h => [(sid, u, h)] | _ => [] end) es.
+(* rows in the order in which they left the queue: inserted, or finished at once (a report with no offer before it) *)
+Fixpoint ins_rows_from (off : list N) (es : list gev) : list (N * N * N) :=
+  match es with
+  | [] => []
+  | GIns sid u h :: r => (sid, u, h) :: ins_rows_from (sid :: off) r
+  | GOffer sid :: r => ins_rows_from (sid :: off) r
+  | GRep sid u h :: r => if existsb (N.eqb sid) off then ins_rows_from off r else (sid, u, h) :: ins_rows_from (sid :: off) r
+  | _ :: r => ins_rows_from off r
+  end.
+Definition ins_rows (es : list gev) : list (N * N * N) := ins_rows_from [] es.
 
 (* capacities cannot be observed through hooks (a hook fires before the send that may block),
    so the replay runs with channel capacity = WorkersCount + number of rows; the token bound is
@@ -115,7 +140,7 @@ Definition ins_rows (es : list gev) : list (N * N * N) :=
 Definition replay_ok (c : ecase) : bool :=
   let rows := ins_rows (e_events c) in
   let s0 := init (N.to_nat (e_w c) + length rows) (e_cfg c) rows in
-  match arun (ACC s0 []) (e_events c) with
+  match arun (ACC s0 [] []) (e_events c) with
   | Some a => negb (e_complete c) ||
               (match p_src (a_st a) with [] => true | _ => false end
                && match p_table (a_st a) with [] => true | _ => false end
@@ -132,6 +157,11 @@ Definition is_hook (sid k : N) (e : gev) : bool :=
   match e with GHook s k' => (s =? sid) && (k' =? k) | _ => false end.
 Definition is_del (sid : N) (e : gev) : bool := match e with GDel s => s =? sid | _ => false end.
 Definition is_ins (sid : N) (e : gev) : bool := match e with GIns s _ _ => s =? sid | _ => false end.
+Definition is_rep (sid : N) (e : gev) : bool := match e with GRep s _ _ => s =? sid | _ => false end.
+Definition is_offer (sid : N) (e : gev) : bool := match e with GOffer s => s =? sid | _ => false end.
+(* the row's first report precedes every offer / insert of it: the queue's consumer finished it at once *)
+Definition rep_first (sid : N) (es : list gev) : bool :=
+  match find (fun e => is_rep sid e || is_offer sid e || is_ins sid e) es with Some (GRep _ _ _) => true | _ => false end.
 
 (* m0: every queue row is reported finished exactly once (after a complete run), never twice *)
 Definition mon_once (c : ecase) : bool :=
@@ -141,7 +171,8 @@ Definition mon_once (c : ecase) : bool :=
     let nd := count_ev (is_del sid) (e_events c) in
     let ni := count_ev (is_ins sid) (e_events c) in
     Nat.leb nf 1 && Nat.leb nn 1 && Nat.leb nd 1 && Nat.leb ni 1 && Nat.leb nn nf && Nat.leb nf ni
-    && (negb (e_complete c) || (Nat.eqb nf 1 && Nat.eqb nn 1 && Nat.eqb ni 1))) (e_rows c).
+    && (if rep_first sid (e_events c) then Nat.eqb nf 0 && Nat.eqb nn 0 && Nat.eqb ni 0   (* finished at once: the finisher never sees it *)
+        else negb (e_complete c) || (Nat.eqb nf 1 && Nat.eqb nn 1 && Nat.eqb ni 1))) (e_rows c).
 
 (* m1: finished only when no node awaits fetching or post-processing; fed back only when one does *)
 Definition mon_done (c : ecase) : bool :=
@@ -269,6 +300,27 @@ Definition mon_not_wedged (c : ecase) : bool := negb (e_wedged c).
 (* m12 (C06, end to end): no seed is fetched that is more than --max-hops links away from the rows of the queue - the hop
    count survives the round trip through the queue (Stage/Outlinks.v: an outlink is queued with hops + 1 and only below the limit) *)
 Definition mon_hop_bound (c : ecase) : bool := e_hopviol c =? 0.
+
+(* m13: exactly once AT THE QUEUE (PipeProofs.reports_exactly_once, reported_never_again, discarded_row_never_in_pipeline): the
+   queue receives at most one finish report per row - exactly one once the crawl has come to rest - whoever sends it (the
+   finisher, or the queue's own consumer for a row whose text is not a URL); and a row that has been reported is out of the
+   pipeline: no offer to the reactor, no insert, no stage hook up to fin.finished, no fetch for it after its report.
+   (fin.notified is logged by the finisher AFTER its send on the finish channel and may follow the queue's event.) *)
+Definition in_pipeline_ev (sid : N) (e : gev) : bool :=
+  match e with
+  | GOffer s | GIns s _ _ | GPre s _ | GFetch s _ => s =? sid
+  | GHook s k => (s =? sid) && (k <=? 9)
+  | _ => false
+  end.
+Fixpoint after_first_rep (sid : N) (es : list gev) : list gev :=
+  match es with [] => [] | e :: r => if is_rep sid e then r else after_first_rep sid r end.
+Definition mon_queue_once (c : ecase) : bool :=
+  forallb (fun sid =>
+    let nr := count_ev (is_rep sid) (e_events c) in
+    Nat.leb nr 1
+    && (negb (e_complete c && e_qwait c) || Nat.eqb nr 1)
+    && negb (existsb (in_pipeline_ev sid) (after_first_rep sid (e_events c)))) (e_rows c).
+
 Definition mons (l : list ecase) :=
   mon_idx [mon_once; mon_done; mon_no_late_fetch; mon_all_fetched; mon_bounded; mon_idle; mon_wf; mon_one_place;
-           mon_attempts; mon_bounds; mon_captured_at_finish; mon_not_wedged; mon_hop_bound] l.
+           mon_attempts; mon_bounds; mon_captured_at_finish; mon_not_wedged; mon_hop_bound; mon_queue_once] l.
